@@ -177,7 +177,34 @@ fn run_cases(prop: &str, outdir: &str, cases: &[String]) {
     let (mut fc, mut fr, mut fi, mut fo) = (open("case"), open("req"), open("impl"), open("oracle"));
     let mut stats = Stats { counts: BTreeMap::new() };
     let mut distinct = std::collections::HashSet::new();
-    for c in cases {
+    // the case being executed is kept in `<prop>.current` so that a run the implementation kills (abort,
+    // stack overflow, allocation failure) or stalls (the watchdog below) still names its input
+    let current_path = format!("{outdir}/{prop}.current");
+    let _ = std::fs::remove_file(format!("{outdir}/{prop}.abort"));
+    let progress = std::sync::Arc::new(std::sync::atomic::AtomicU64::new(0));
+    {
+        let progress = progress.clone();
+        let abort_path = format!("{outdir}/{prop}.abort");
+        let limit = std::env::var("VERIF_CASE_TIMEOUT_S").ok().and_then(|v| v.parse::<u64>().ok()).unwrap_or(300);
+        std::thread::spawn(move || {
+            let mut seen = progress.load(std::sync::atomic::Ordering::SeqCst);
+            let mut since = std::time::Instant::now();
+            loop {
+                std::thread::sleep(std::time::Duration::from_millis(500));
+                let now = progress.load(std::sync::atomic::Ordering::SeqCst);
+                if now != seen {
+                    seen = now;
+                    since = std::time::Instant::now();
+                } else if now != 0 && now != u64::MAX && since.elapsed().as_secs() >= limit {
+                    let _ = std::fs::write(&abort_path, format!("case {now} did not finish within {limit} s"));
+                    std::process::exit(3);
+                }
+            }
+        });
+    }
+    for (k, c) in cases.iter().enumerate() {
+        let _ = std::fs::write(&current_path, c);
+        progress.store(k as u64 + 1, std::sync::atomic::Ordering::SeqCst);
         let e = match guarded(|| exec(prop, c)) {
             Ok(e) => e,
             Err(msg) => {
@@ -200,6 +227,8 @@ fn run_cases(prop: &str, outdir: &str, cases: &[String]) {
         }
         distinct.insert(e.req.clone() + "|" + &e.resp);
     }
+    progress.store(u64::MAX, std::sync::atomic::Ordering::SeqCst);
+    let _ = std::fs::remove_file(&current_path);
     stats.counts.insert("_cases".into(), cases.len() as u64);
     stats.counts.insert("_distinct".into(), distinct.len() as u64);
     let js = serde_json::to_string(&stats.counts).unwrap();
